@@ -171,7 +171,7 @@ PROPS = {
 
 # What the mutant waves added (DESIGN.md section 16.5); appended to the rules so that evidence files say what ran.
 TREE_EXTRA = ("Store kinds: memory, level(mem,mem), level(mem,persistent), persistent, and level(persistent,persistent) = what a rebase "
-              "after a save produces. Path lengths up to 256 hex characters. 1 in 500 runs stores values 0-700 bytes (biased to the last dozen) "
+              "after a save produces. Path lengths up to 256 hex characters. 1 in 700 runs stores values 0-700 bytes (biased to the last dozen) "
               "below util.MPTMaxAllowableNodeSize, the largest value Insert accepts.")
 ROUND_EXTRA = ("1 in 120 runs has one round that inserts 200-500 keys (more nodes than the 256-node batch size); 1 in 15 runs uses sparse round "
                "numbers whose low bits repeat (jumps of 2^16 / 2^32 / 2^48); 1 in 10 rounds contains a 'sync': the complete state of the previous "
